@@ -25,7 +25,7 @@ BOUNDS = {
               "normalize / glob": "ASCII strings of 0..2 code points; 4 glob patterns", "context": "C7NContext over success / error / escaping paths of one symbolic evaluation, sequences of 2"},
     "thorough": {"CIDR": "all 33 x 33 prefix-length pairs", "others": "lists of 0..4, strings of 0..3"},
 }
-OUTSIDE = ["version (packaging.Version regex)", "value_from / text_from (network)", "jmes_path (third-party)", "non-ASCII case mapping in normalize",
+OUTSIDE = ["versions other than dotted decimal numbers (epochs, pre/post/dev/local segments of PEP 440)", "value_from / text_from (network)", "jmes_path (third-party)", "non-ASCII case mapping in normalize",
            "parse_cidr on symbolic text (ipaddress parses the text with C-level string methods): concrete spellings only"]
 ASSUMPTIONS = ["stdlib ipaddress is shadow-loaded (its own Python source runs on symbolic 32-bit integers)"]
 TRUSTED = ["z3 5.1", "CPython 3.12", "vf.sym shadows (SSet, fnmatch shim, bit-run encoding of & | >> by constants)"]
@@ -52,7 +52,44 @@ def profile():
     seeds = dict(L.BASIC)
     seeds["set"] = cont.SSet
     p.add("celpy.c7nlib", seeds=seeds, post=_c7nlib_post)
+    # packaging.version (pure Python, third party) is followed symbolically as well: version() delegates to it entirely
+    for m in [k for k in sys.modules if k == "packaging" or k.startswith("packaging.")]:
+        sys.modules.pop(m, None)
+    p.add("packaging._structures", post=L._generic_post)
+    p.add("packaging.version", post=_packaging_post)
     return p
+
+
+class _CharSet:
+    """stand-in for a frozenset of characters probed with issuperset(<symbolic str>): membership by comparison, not by hash"""
+
+    def __init__(self, chars):
+        self.chars = frozenset(chars)
+
+    def issuperset(self, s):
+        from ..sym import strs
+        from ..sym.core import branch
+        if not isinstance(s, str):
+            raise TypeError("not iterable")
+        if not strs.s_is_sym(s):
+            return self.chars.issuperset(s)
+        codes = sorted(ord(c) for c in self.chars)
+        for t, ch in zip(strs.cterms(s), strs.sraw(s)):
+            if not branch(z3.Or([t == c for c in codes]), ch in self.chars):
+                return False
+        return True
+
+    def __contains__(self, c):
+        return c in self.chars
+
+    def __iter__(self):
+        return iter(self.chars)
+
+
+def _packaging_post(module, state):
+    L._generic_post(module, state)
+    if hasattr(module, "_SIMPLE_VERSION_INDICATORS"):
+        module._SIMPLE_VERSION_INDICATORS = _CharSet(module._SIMPLE_VERSION_INDICATORS)
 
 
 PREFIXES_Q = (0, 1, 8, 16, 23, 24, 31, 32)
@@ -69,7 +106,13 @@ def tasks(tier):
     for pn in pf:
         ts.append({"what": "cidr", "pn": pn, "pxs": list(pf)})
     ts += [{"what": w} for w in ("key", "marked_key", "arn_split", "normalize", "glob", "context", "cidr-text")]
+    vs = VERSION_SHAPES_Q if tier == "quick" else VERSION_SHAPES_Q + VERSION_SHAPES_T
+    ts += [{"what": "version", "a": a, "b": b} for a, b in vs]
     return ts
+
+
+VERSION_SHAPES_Q = [("D.D", "D.D"), ("D.D.D", "D.D"), ("D.D", "D.D.D"), ("D", "D.D.D"), ("D.DD", "D.D"), ("DD.D", "D.DD"), ("D.D.D", "D.D.D")]
+VERSION_SHAPES_T = [("D.D.D.D", "D.D"), ("DD.DD", "D.D.D"), ("D", "D"), ("DDD", "D.D"), ("D.D.DD", "D.D.D"), ("D.D", "D.D.D.D")]
 
 
 def c7n():
@@ -82,6 +125,8 @@ def run_task(task, kf):
     w = task["what"]
     if w == "sets":
         hs = _set_harnesses(task["n"], task["m"], task["kind"])
+    elif w == "version":
+        hs = [_version_harness(task["a"], task["b"])]
     elif w == "cidr":
         hs = [_cidr_harness(task["pn"], px) for px in task["pxs"]] + [_cidr_addr_harness(task["pn"])]
     else:
@@ -101,6 +146,59 @@ def _prog(text):
     env = celpy.Environment(annotations=dict(m.DECLARATIONS))
     common._parsers["interp"] = celpy.CELParser.CEL_PARSER
     return env.program(env.compile(text), functions=dict(m.FUNCTIONS))
+
+
+def _version_harness(sa, sb):
+    """version(a) <op> version(b) for dotted numeric texts with symbolic digits: numeric component order, missing components count as zero"""
+    from ..sym import strs
+    celpy, ct, ev = common.mods()
+    lib = c7n()
+    vars, pre = {}, []
+
+    def mkshape(name, shape):
+        cs, comps, cur = [], [], z3.IntVal(0)
+        for i, ch in enumerate(shape):
+            c = z3.Int(f"{name}_c{i}")
+            vars[str(c)] = c
+            cs.append(c)
+            if ch == "D":
+                pre.extend([c >= 48, c <= 57])
+                cur = cur * 10 + (c - 48)
+            else:
+                pre.append(c == 46)
+                comps.append(cur)
+                cur = z3.IntVal(0)
+        comps.append(cur)
+        return cs, comps
+    ca, A = mkshape("a", sa)
+    cb, B = mkshape("b", sb)
+    n = max(len(A), len(B))
+    A2, B2 = A + [z3.IntVal(0)] * (n - len(A)), B + [z3.IntVal(0)] * (n - len(B))
+
+    def lex_lt(xs, ys):
+        if not xs:
+            return z3.BoolVal(False)
+        return z3.Or(xs[0] < ys[0], z3.And(xs[0] == ys[0], lex_lt(xs[1:], ys[1:])))
+    lt, eq = lex_lt(A2, B2), z3.And([x == y for x, y in zip(A2, B2)])
+    spec = {"<": lt, "<=": z3.Or(lt, eq), ">": z3.And(z3.Not(lt), z3.Not(eq)), ">=": z3.Not(lt), "==": eq, "!=": z3.Not(eq)}
+    progs = {op: _prog(f"version(a) {op} version(b)") for op in spec}
+    import operator
+    pyop = {"<": operator.lt, "<=": operator.le, ">": operator.gt, ">=": operator.ge, "==": operator.eq, "!=": operator.ne}
+
+    def run(vals):
+        a = ct.StringType(strs.mks(strs.SStr, ca, "".join(chr(vals[f"a_c{i}"]) for i in range(len(ca)))))
+        b = ct.StringType(strs.mks(strs.SStr, cb, "".join(chr(vals[f"b_c{i}"]) for i in range(len(cb)))))
+        obs = []
+        for op, sp in spec.items():
+            kd, r = common.outcome(lambda: pyop[op](lib.version(a), lib.version(b)))
+            obs.append(Ob(f"C17/version/{op}@direct", (bool_term(r) == sp) if kd == "value" else z3.BoolVal(False), note=f"{kd} {str(r)[:60]}"))
+            kd, r = common.outcome(lambda: progs[op].evaluate({"a": a, "b": b}))
+            obs.append(Ob(f"C17/version/{op}@cel", (bool_term(r) == sp) if kd == "value" else z3.BoolVal(False), note=f"{kd} {str(r)[:60]}"))
+        return obs
+
+    def witness(vals):
+        return {"check": "c17.version_order", "args": enc({"la": len(ca), "lb": len(cb), "vals": vals})}
+    return Harness(id=f"C17/version/{sa}~{sb}", vars=vars, pre=pre, run=run, witness=witness, max_paths=400)
 
 
 def _set_harnesses(n, m, kind):
